@@ -179,6 +179,16 @@ impl<'a, T: ColumnProvider> ExpressionExecutionEngine<'a, T> {
 
                 for value in values {
                     let expected_value = self.evaluate(value)?;
+
+                    // As for '=' and '!=', a comparison with NULL is never true
+                    if executed_operand.is_null() || expected_value.is_null() {
+                        if *is_not {
+                            return Ok(Value::Bool(false));
+                        } else {
+                            continue;
+                        }
+                    }
+
                     if executed_operand == expected_value {
                         return Ok(Value::Bool(!is_not));
                     }
